@@ -7,3 +7,10 @@ import TradingVerif.Props.C07
 #print axioms TV.reward_def
 #print axioms TV.clipTo_range
 #print axioms TV.simple_returns_compound
+#print axioms TV.foldl_notifyEvent_clock
+#print axioms TV.stepExec_recInv
+#print axioms TV.envStep_recInv
+#print axioms TV.record_times_increasing
+#print axioms TV.reset_ready
+#print axioms TV.firstBatch_nonempty
+#print axioms TV.record_times_increasing_episode
